@@ -322,6 +322,12 @@ def _check_object_from_file(query, filepath, allow_custom, version, encoding):
             "to JSON or was not valid STIX JSON".format(filepath),
         )
 
+    if isinstance(stix_json, dict) and stix_json.get("type") == "bundle" \
+            and stix_json.get("objects"):
+        # (a file written with bundlify=True)  The object is what is asked
+        # for, and what a named version is meant for.
+        stix_json = stix_json["objects"][0]
+
     stix_obj = parse(stix_json, allow_custom, version=version)
 
     if stix_obj["type"] == "bundle":
